@@ -7,7 +7,9 @@ Require Import Wbxml.Model.LangSelect.
 Require Import Wbxml.Model.EncWbxml.
 Require Import Wbxml.Model.XmlFront.
 Require Import Wbxml.Model.XmlFrontEvents.
+Require Import Wbxml.Model.XmlFrontCanonEvents.
+Require Import Wbxml.Model.XmlFrontLfOld.
 Require Import Wbxml.Gen.TablesData.
 Require Extraction.
 Require Import ExtrOcamlBasic.
-Extraction "model.ml" main_table tree_from_xml run init_ctx tree_of_ctx step events_of root_canon get_table.
+Extraction "model.ml" main_table tree_from_xml run init_ctx tree_of_ctx step events_of root_canon get_table evs_clause tree_from_xml_old run_old.
